@@ -84,6 +84,38 @@ def gen_pair(rng, tier):
         if rng.random() < 0.3: toks = [rng.choice(['@box', '@arc'])] + toks
         yield 'W ' + ' '.join(strip_wrappers(toks)) + ' ;; ' + ' '.join(toks) + ' ;; ' + ' ; '.join(gen_notify_ops(rng, rng.choice([6, 15, 30])))
 
+def gen_filter_pair(rng):
+    """pass-through wrappers around a per-layer FILTER (Box<dyn Filter>, Arc<dyn Filter>, Some(_), reload used as a filter): the
+    same stack with bare and with wrapped recording filters; the complete logs (layer and filter callbacks) must be equal"""
+    toks = []
+    n = 1
+    for _ in range(rng.choice([1, 2, 3])):
+        if rng.random() < 0.7:
+            letters = ''.join(rng.choice('xasr') for _ in range(rng.choice([1, 1, 2, 3])))
+            toks.append(wrap_tok(rng, 'R%dl%d~%s' % (n, rng.randrange(2, 6), letters), 0.3))
+        else:
+            toks.append(wrap_tok(rng, 'P%d' % n, 0.3))
+        n += 1
+    if not any('~' in t for t in toks): toks[0] = 'R1l4~' + rng.choice(['x', 'a', 's', 'r', 'xa'])
+    bare = [t.split(':')[-1].split('~')[0] for t in toks]
+    return 'W ' + ' '.join(bare) + ' ;; ' + ' '.join(toks) + ' ;; ' + ' ; '.join(gen_notify_ops(rng, rng.choice([8, 15, 30])))
+
+def extra(tier, seed, rng, res, broken):
+    import checklib.main as M
+    n = 300 if (tier == 'quick' and not broken) else 6000
+    cases = [gen_filter_pair(rng) for _ in range(n)]
+    outs, err = M.run_lines([M.bin_path('h_layers')], cases)
+    if err:
+        res.errors.append('filter-wrapper stream: %s' % err); return
+    for c, o in zip(cases, outs):
+        res.evaluations += 1
+        k = 'filterpair wrappers=%s' % ''.join(sorted(set(''.join(t.split('~')[1] for t in c.split(' ;; ')[1].split() if '~' in t))))
+        res.hist[k] = res.hist.get(k, 0) + 1
+        v = judge_pair(c, o)
+        if 'f_record' in o and 'f_close' in o and ':event' in o: res.nontrivial.add('filterpair ' + c)
+        if v != 'ok':
+            res.spec_failures.append(('filterpair', c, o[:2000], 'judge ' + v))
+
 def judge_pair(case, out):
     halves = out.split(' || ')
     if len(halves) != 2: return 'bad ' + out[:40]
